@@ -274,9 +274,6 @@ theorem streamStepR_hom {σ τ} (cfg : Cfg) (fl : Flags) (S : Sink σ) (T : Sink
         · split <;> simp [Except.map]
         · split <;> simp [Except.map]
 
-/-- the block the stream loop is about to dispatch on -/
-def dispatchTok (c : Core) : Option String := ((seekBegin c.ts.nextU).clear.nextU).cur
-
 theorem streamStepY_eq (cfg : Cfg) (fl : Flags) (hx : fl.excludeChars = true) (c : Core) (out : List Tree)
     (hs : isSetsKw (dispatchTok c) = false) :
     streamStepY cfg fl c out = streamStepR cfg fl pseudoSink c out := by
@@ -292,18 +289,6 @@ theorem streamStepY_eq (cfg : Cfg) (fl : Flags) (hx : fl.excludeChars = true) (c
   · subst hB; simp [isSetsKw]
   · simp only [beq_iff_eq, hT, hR, hB, hs, if_false, Bool.false_eq_true]
     split <;> rfl
-
-/-- the reader's block loop never dispatches on a SETS / ASSUMPTIONS / CODONS block (which the reader, with
-    `exclude_chars`, leaves to be scanned for the next BEGIN while the yielder skips it statement by statement) -/
-def noSetsBlocks {σ} (cfg : Cfg) (fl : Flags) (S : Sink σ) (c : Core) (acc : σ) : Bool :=
-  if c.ts.eof then true
-  else if isSetsKw (dispatchTok c) then false
-  else
-    match streamStepR cfg fl S c acc with
-    | .error _ => true
-    | .ok (c3, acc3) =>
-      if h : c3.ts.rest.length < c.ts.rest.length then noSetsBlocks cfg fl S c3 acc3 else true
-termination_by c.ts.rest.length
 
 theorem streamLoopR_hom {σ τ} (cfg : Cfg) (fl : Flags) (S : Sink σ) (T : Sink τ) (h : σ → τ) (hh : Hom S T h) :
     ∀ (n : Nat) (c : Core) (acc : σ), c.ts.rest.length = n →
@@ -468,7 +453,9 @@ theorem yield_eq_list_newick (cfg : Cfg) (fl : Flags) (toks : List Tok) (tail : 
     runs the reader with `attached := false`; the two differ exactly where the reader consults `nsCount`/`nsLabel`
     (several TAXA blocks, LINK to a title, the NTAX refusal of TAXLABELS) — a simulation over `Core` states that differ
     in those two fields is not proved.  Also restricted by `noSetsBlocks` as `reader_eq_yielder_partial`.
-    The residue is what the correspondence compares on every generated document (`yield` vs `list` answers). -/
+    SUPERSEDED for the driver-run statement by `yield_eq_list_nexus` below.  The right-hand side configuration is
+    executed by the driver as op `list` with flags `11` and compared by the harness with the real attached route
+    (`DataSet.get(taxon_namespace=, exclude_chars=True)`, flattened) on every generated NEXUS document. -/
 theorem yield_eq_list_nexus_partial (cfg : Cfg) (fl : Flags) (hx : fl.excludeChars = true) (toks : List Tok) (tail : List String) (ns : NSObj)
     (hs : noSetsBlocks cfg { fl with attached := true } pseudoSink
             { (coreOf toks tail ns) with ts := (coreOf toks tail ns).ts.next } [] = true) :
@@ -476,14 +463,44 @@ theorem yield_eq_list_nexus_partial (cfg : Cfg) (fl : Flags) (hx : fl.excludeCha
   simp only [yieldFrom, listGet, readWith]
   rw [reader_eq_yielder_partial cfg { fl with attached := true } hx (coreOf toks tail ns) [] hs]
 
+/-- the reader front end with an ATTACHED namespace (`DataSet.get(taxon_namespace=…)`, the settings of the iterator) reproduces
+    every successful run of the reader without one (`TreeList.get`, `Tree.get`, plain `DataSet.get`): same product of the
+    tree-list factory — one list, or the collections — and a namespace with the same labels; for every factory, token
+    stream, option set and starting namespace, with NO restriction on SETS-class blocks (both sides are the reader).
+    Both sides are driver-run: ops `list` / `blocks` with flags `10` resp. `11`, the latter compared by the harness with
+    the real attached route.  One direction only: the attached run also reads what the other refuses (several TAXA
+    blocks, a LINK to an unknown title, more TAXLABELS than NTAX — see `taxlabels_limit_refuses`, `link_unknown_refused`). -/
+theorem attached_reader_simulates {σ} (cfg : Cfg) (fl : Flags) (S : Sink σ) (toks : List Tok) (tail : List String)
+    (ns ns' : NSObj) (acc r : σ)
+    (h : readWith .nexus cfg fl S toks tail ns acc = .ok (r, ns')) :
+    ∃ ns'', readWith .nexus cfg (att fl) S toks tail ns acc = .ok (r, ns'') ∧ ns''.labels = ns'.labels := by
+  simp only [readWith] at h ⊢
+  cases hr : nexusRead cfg fl S (coreOf toks tail ns) acc with
+  | error e => simp [hr, Except.map] at h
+  | ok x =>
+    simp only [hr, Except.map] at h
+    cases h
+    have hA := nexusRead_att cfg fl S (coreOf toks tail ns) acc x hr
+      (coreOf toks tail ns).nsCount (coreOf toks tail ns).nsLabel
+    have e0 : setReg (coreOf toks tail ns) (coreOf toks tail ns).nsCount (coreOf toks tail ns).nsLabel = coreOf toks tail ns := rfl
+    rw [e0] at hA
+    rw [hA]
+    exact ⟨_, rfl, rfl⟩
+
 /-- route level, NEXUS, both sides as the driver runs them: whenever `TreeList.get` (the `list` op: reader front end,
     namespace NOT attached) reads the whole source, `Tree.yield_from_files` (the `yield` op: the separately written
     iterator front end, namespace attached) delivers exactly the same trees in the same order, attached to the same
-    taxa of a namespace with the same labels.  For every token stream, option set and starting namespace.
+    taxa of a namespace with the same labels.  For every option set and starting namespace, and every token stream
+    satisfying `hs` below.  One direction and success only: nothing is claimed when the list route fails.
     (The converse fails by design and is a listed known finding: a file with several TAXA blocks is refused by the
     list route and read by the iterator.  The namespace *title* may differ: only the list route records it.)
-    Remaining hypothesis `noSetsBlocks`, evaluated on the driver's own `list` run: its block loop meets no
-    SETS / ASSUMPTIONS / CODONS block (see `reader_eq_yielder_partial`). -/
+    Hypothesis `hs : noSetsBlocks …` (an executable predicate of the model, driver op `nosets`; the harness evaluates it
+    on every generated NEXUS document and reports the share in the evidence, about 80 %): the block loop of the `list`
+    run meets no SETS / ASSUMPTIONS / CODONS block.  It EXCLUDES well-formed documents with such a block on which both
+    routes do agree (e.g. `… BEGIN SETS; taxset x = 1; END; BEGIN TREES; …`): there the reader scans the block for the
+    next BEGIN while the iterator skips it statement by statement, the intermediate tokenizer states differ (captured
+    comments, end-of-input flag) and only a result-level stuttering simulation would relate them — not proved; those
+    documents are covered by the correspondence only. -/
 theorem yield_eq_list_nexus (cfg : Cfg) (fl : Flags) (hx : fl.excludeChars = true)
     (toks : List Tok) (tail : List String) (ns ns' : NSObj) (trees : List Tree)
     (hlist : listGet .nexus cfg fl toks tail ns [] none none = .ok (trees, ns'))
@@ -553,8 +570,11 @@ theorem incremental_collection (sch : Schema) (cfg : Cfg) (fl : Flags) (toks : L
   simp [listGet, hread, h1, pyIdx, hb]
 
 /-- `DataSet.get`: the tree lists of the data set, concatenated, are the trees of `TreeList.get`.
-    PARTIAL: stated with the same `exclude_chars` on both sides; the real data-set route parses CHARACTERS/DATA/SETS
-    blocks (here a statement skeleton, not the C09 matrix parser) where the tree-list route skips them. -/
+    PARTIAL: stated with the same `exclude_chars` on both sides (an instance of `whole_eq_flatten`); the real data-set
+    route parses CHARACTERS/DATA/SETS blocks (here a statement skeleton, not the C09 matrix parser) where the tree-list
+    route skips them, and NO theorem relates the two settings.  The right-hand side is executed by the driver as op
+    `list` with flags `00` and compared with `DataSet.get(...)` flattened; the clause "data set = tree list" at the real,
+    differing settings is checked by oracle and correspondence only. -/
 theorem dataset_eq_lists_partial (sch : Schema) (cfg : Cfg) (fl : Flags) (toks : List Tok) (tail : List String) (ns : NSObj) :
     (datasetRead sch cfg fl toks tail ns []).map (fun r => (r.1.flatten, r.2))
       = listGet sch cfg { fl with excludeChars := false } toks tail ns [] none none := by
@@ -705,7 +725,64 @@ theorem docT_noSets :
     processTreeComments, rootingState, parseNode.eq_def, tailLoop.eq_def, suppressTaxon, Mapper.require, lookupCI, lookupEx,
     skipTrailingSemis.eq_def, Except.map, Core.withDoc, up1, up2, up3, up5, up6]
 
+/-! #### the simulation lemmas of `Theory/C13Sim.lean` at the level below the whole-document parser (evaluating a whole
+TAXA + LINK + TRANSLATE document by `simp` does not finish in reasonable time; these instantiate the branches `docT` does not
+reach: the NTAX limit of TAXLABELS, which only the non-attached run applies, and LINK resolution through the registry) -/
+theorem la : "a".toLower = "a" := by with_unfolding_all rfl
+theorem lb : "b".toLower = "b" := by with_unfolding_all rfl
+theorem ux : "x".toUpper = "X" := by with_unfolding_all rfl
+theorem uX : "X".toUpper = "X" := by with_unfolding_all rfl
+theorem uTitle : "TITLE".toUpper = "TITLE" := by with_unfolding_all rfl
+
+/-- the tokens `a b ;` of a TAXLABELS statement, positioned on `a` -/
+def tsLabels : TS := { rest := [tk "b", tk ";"], tail := [], cur := some "a" }
+
+/-- without an attached namespace the NTAX limit refuses the second label of `TAXLABELS a b` under NTAX=1 … -/
+theorem taxlabels_limit_refuses : taxlabelsLoop false tsLabels [] (some 1) = .error .parse := by
+  simp [taxlabelsLoop.eq_def, tsLabels, tk, nsFind, nsFind.go, TS.next, TS.step, TS.clear, la, lb]
+
+/-- … whereas the attached run accepts it: the flag matters exactly here, and the simulation only goes one way -/
+theorem taxlabels_limit_attached : ∃ ts', taxlabelsLoop true tsLabels [] (some 1) = .ok (["a", "b"], ts') := by
+  simp [taxlabelsLoop.eq_def, tsLabels, tk, nsFind, nsFind.go, TS.next, TS.step, TS.clear, la, lb]
+
+/-- with NTAX=2 the non-attached run reads both labels: `taxlabels_att` applies to a real success -/
+theorem taxlabels_ok : ∃ ts', taxlabelsLoop false tsLabels [] (some 2) = .ok (["a", "b"], ts') := by
+  simp [taxlabelsLoop.eq_def, tsLabels, tk, nsFind, nsFind.go, TS.next, TS.step, TS.clear, la, lb]
+
+/-- a state with one registered namespace titled `x` (what `TAXA; TITLE x; …` leaves behind) -/
+def coreLinked : Core := { ts := { rest := [], tail := [] }, ns := ["a"], nsCount := 1, nsLabel := some "x" }
+
+/-- `LINK TAXA = X` resolves against it (case-insensitively) on the non-attached run … -/
+theorem link_resolves : getNamespace {} coreLinked (some "X") = .ok coreLinked := by
+  simp [getNamespace, nsFound, coreLinked, ux, uX]
+
+/-- … and a LINK to an unknown title is refused there, but not on the attached run -/
+theorem link_unknown_refused : getNamespace {} coreLinked (some "a") = .error .parse ∧
+    getNamespace (att {}) coreLinked (some "a") = .ok coreLinked := by
+  constructor
+  · simp [getNamespace, nsFound, coreLinked, ux, show "a".toUpper = "A" from by with_unfolding_all rfl]
+  · exact getNamespace_att {} _ _
+
+/-- the TITLE branch of the TAXA loop registers a namespace on the non-attached run only -/
+theorem taxaTitle_registers :
+    ∃ c', taxaTitle {} { ts := { rest := [tk "TITLE", tk "x", tk ";"], tail := [] }, ns := [] } false = .ok (c', true, some "x") ∧
+      c'.nsCount = 1 ∧ c'.nsLabel = some "x" := by
+  simp [taxaTitle, parseTitle, newNamespace, tk, TS.nextU, TS.castU, TS.req, TS.step, uTitle]
+
 end Aux
+
+example : ∃ ts', taxlabelsLoop true tsLabels [] (some 2) = .ok (["a", "b"], ts') := by
+  obtain ⟨ts', h⟩ := taxlabels_ok
+  exact ⟨ts', taxlabels_att false _ tsLabels [] (some 2) _ rfl h⟩
+
+example : ∀ k l, getNamespace (att {}) (setReg coreLinked k l) (some "X") = .ok (setReg coreLinked k l) ∧
+    setReg coreLinked k l = setReg coreLinked k l :=
+  fun k l => ⟨getNamespace_att {} _ _, getNamespace_setReg {} coreLinked coreLinked (some "X") link_resolves k l⟩
+
+example : ∃ c', taxaTitle (att {}) (setReg { ts := { rest := [tk "TITLE", tk "x", tk ";"], tail := [] }, ns := [] } 7 none) false
+    = .ok (setReg c' 7 none, true, some "x") := by
+  obtain ⟨c', h, _⟩ := taxaTitle_registers
+  exact ⟨c', taxaTitle_att {} _ false _ h 7 none⟩
 
 /-- `yield_eq_list_nexus` on a document with a real TREES block: the list op reads one tree, hence the yield op delivers
     that very tree -/
@@ -713,6 +790,11 @@ example : ∃ trees ns', listGet .nexus {} {} docT [] {} [] none none = .ok (tre
     ∃ ns'', yieldFrom .nexus {} {} docT [] {} = .ok (trees, ns'') ∧ ns''.labels = ns'.labels := by
   obtain ⟨r, hr, hlen⟩ := docT_list
   exact ⟨r.1, r.2, hr, hlen, yield_eq_list_nexus {} {} rfl docT [] {} r.2 r.1 hr docT_noSets⟩
+
+example : ∃ r ns'', readWith .nexus {} (att {}) pseudoSink docT [] {} [] = .ok (r, ns'') ∧ r.length = 1 := by
+  obtain ⟨x, hx, hlen⟩ := docT_list
+  obtain ⟨ns'', h, _⟩ := attached_reader_simulates {} {} pseudoSink docT [] {} x.2 [] x.1 (by simpa [listGet] using hx)
+  exact ⟨x.1, ns'', h, hlen⟩
 
 example : nexusYield {} {} (coreOf docT [] {}) [] = nexusRead {} {} pseudoSink (coreOf docT [] {}) [] :=
   reader_eq_yielder_partial {} {} rfl (coreOf docT [] {}) [] docT_noSets
